@@ -23,7 +23,7 @@ RULE = ('kinds: tflag (TFLAG variable, valid flags from start+i*step incl. day/y
         'since ref" with 20 reference spellings incl. time zones and rejected ones, units days/hours/minutes/'
         'seconds/weeks, calendars standard/gregorian/proleptic_gregorian/noleap/365_day/all_leap/366_day, '
         'offsets up to centuries, bounds none/approx/time_bounds), atv (add_time_variable with and without '
-        'TFLAG, TSTEP up to 7 digits); reference years 1900-2100; non-trivial = at least two instants and a '
+        'TFLAG, TSTEP up to 7 digits); CF time variables stored as float64, float32 (large values) and integers; 365/366-day calendars on whole days since 1 January across 29 February; reference years 1900-2100; non-trivial = at least two instants and a '
         'non-midnight or non-Jan-1 component somewhere; distinct = distinct case payload')
 ASSUMPTIONS = ['python datetime arithmetic and strptime are trusted (the model works on integer seconds)',
                'timedelta(days=float) rounds to the microsecond: exact values are whole seconds, float error < 1e-8 s',
@@ -121,7 +121,30 @@ def _cf_case(rng):
     step = rng.choice([1, 1, 2, 24, Fraction(1, 2), Fraction(3, 8), 365])
     vals = [start + step * i for i in range(n)]
     bnd = rng.choice(['none', 'none', 'approx', 'tb']) if n >= 2 else 'none'
-    return dict(kind='cf', unit=unit, cal=cal, ref=ref, vals=[lib.show_rat(v) for v in vals], bnd=bnd)
+    tdt = 'd'
+    if rng.random() < 0.25:
+        # the time variable stored as float32 or as an integer type: the stored value (exactly) is what must be decoded
+        tdt = rng.choice(['f', 'f', 'i'])
+        if tdt == 'f':
+            if rng.random() < 0.5 and unit in ('hours', 'days'):
+                base = Fraction(rng.choice([1000001, 876543, 400001]))
+                vals = [base + step * i for i in range(n)]
+            vals = [Fraction(float(np.float32(float(v)))) for v in vals]
+        else:
+            vals = [Fraction(int(v)) for v in vals]
+        if len(set(vals)) != len(vals):
+            tdt, vals = 'd', [start + step * i for i in range(n)]
+    if rng.random() < 0.12:
+        # 365/366-day calendars on the inputs the library decodes: whole days since 1 January 00:00, spans that
+        # cross a real 29 February (date2num / time2idx must invert getTimes there too)
+        cal = rng.choice(['noleap', 'noleap', '365_day', 'all_leap', '366_day'])
+        unit, tdt = 'days', 'd'
+        ref = '{Y}-01-01 00:00:00'.format(Y=rng.choice([2000, 2000, 1999, 2019, 1970]))
+        start = Fraction(rng.choice([0, 30, 58, 59, 60, 364, 365, 366, 425, 800]))
+        step = rng.choice([1, 1, 30, 365, 7])
+        vals = [start + step * i for i in range(n)]
+        bnd = 'none' if rng.random() < 0.8 else bnd
+    return dict(kind='cf', unit=unit, cal=cal, ref=ref, vals=[lib.show_rat(v) for v in vals], bnd=bnd, tdt=tdt)
 
 
 def gen(rng, tier):
@@ -241,7 +264,7 @@ def _impl_cf(case):
     vals = [float(Fraction(v)) for v in case['vals']]
     n = len(vals)
     f.createDimension('time', n)
-    v = f.createVariable('time', 'd', ('time',))
+    v = f.createVariable('time', case.get('tdt', 'd'), ('time',))
     v[:] = vals
     v.units = '%s since %s' % (case['unit'], case['ref'])
     if case['cal'] is not None:
@@ -484,7 +507,9 @@ HOUR_ONLY_Z = re.compile(r'^\S+ \d+ ?(UTC|Z)?$')
 
 
 def classify(case, failure, model_out):
-    if case['kind'] == 'cf' and case['cal'] in ('noleap', '365_day', 'all_leap', '366_day'):
+    # the recorded finding is about DECODING on these calendars; date2num / time2idx going wrong there is another failure
+    if case['kind'] == 'cf' and case['cal'] in ('noleap', '365_day', 'all_leap', '366_day') and not (
+            failure.startswith('date2num') or failure.startswith('time2idx')):
         return KEY_YL
     return None
 
